@@ -296,6 +296,19 @@ def step (st : Drv.CratesV2.St) (cmd : String) (args : List String) : Drv.Crates
 def mode : Drv.Mode := Drv.mkMode "c15cv2" ({} : Drv.CratesV2.St) step
 end CV2
 
+/-- stateless: `c15.ceil <double bits>` — the hardware `ceil` of the driver against the bit-exact `ceilBits`
+(NaN results compare equal whatever their payload). -/
+def table (cmd : String) (args : List String) : Option String :=
+  match cmd, args with
+  | "c15.ceil", [h] =>
+    some <| match parseHex64 h with
+      | some b =>
+        let hw := Drv.TracksV1.fops.ceil b
+        let ex := EngineModel.Api.C15TracksV1.ceilBits b
+        if hw == ex || (F64.isNaN hw && F64.isNaN ex) then "ok same" else s!"ok differ hw={hex64 hw} exact={hex64 ex}"
+      | none => "bad-op hex"
+  | _, _ => none
+
 /-- the four C15 modes (one line in Driver/Main.lean) -/
 def modes : List Drv.Mode := [TV1.mode, TV2.mode, CV1.mode, CV2.mode]
 
